@@ -340,6 +340,28 @@ def check_get_assertion(paths, ctx, want):
                 if not ctx.is_input_ref(src, ctx.ga["allow_list"]):
                     F.append(Finding("C05", "ga.allow-list-source", "the id list given to the store is not the request's allow list", None, None, p))
 
+        if "C05" in want and find:
+            sel = calls(p, "Result::and_then")
+            picked_ok = False
+            if sel:
+                clo = chase(sel[0][1]["args"][1]) if len(sel[0][1]["args"]) > 1 else None
+                if clo is not None and clo[0] == "closure" and getattr(ctx, "fns", None):
+                    f = _closure_fn(ctx.fns, clo)
+                    if f is not None:
+                        from .executor import Executor
+                        names = set()
+                        for q in Executor(f, follow_yields=False).run():
+                            names |= {e2["callee"] for e2 in q.events if e2["kind"] == "call"}
+                        picked_ok = any(n.endswith("Iterator::next") for n in names) and any(n.endswith("into_iter") for n in names) \
+                            and not any(n.endswith(x) for n in names for x in ("::pop", "::last", "::max_by_key", "::rev", "::next_back", "::swap_remove"))
+            if not picked_ok:
+                sc = ga_scenario(p, ctx)
+                if sc:
+                    sc["store"]["find"] = {"ok": 2}
+                    sc["store"]["held"] = [{"counter": None}, {"counter": None}]
+                F.append(Finding("C05", "ga.first-credential", "the credential used is not obtained as the first element of the store's result", sc,
+                                 lambda o: isinstance(o["result"], dict) and "ok" in o["result"] and o["result"]["ok"]["credential_first_byte"] != 1, p))
+
         if "C09" in want:
             for i, e in ext:
                 uv_arg = chase(e["args"][3])
@@ -373,7 +395,19 @@ def check_get_assertion(paths, ctx, want):
             src = chase(mp[-1][1]["args"][0])
             # must be the credential's user_handle (clone of ...@variant#5.<cred>.<user_handle>)
             if not re.search(r"\.%d\)?$" % ctx.pk["user_handle"], tstr(src)) and not (src[0] == "ref" and src[1].endswith(".%d" % ctx.pk["user_handle"])):
-                F.append(Finding("C11", "ga.user-handle-source", "the response's user is not derived from the credential's stored user handle (%s)" % tstr(src)[:80], None, None, p))
+                # the handle is transformed on its way into the response: try the combinations of
+                # requested / performed verification with a credential that stores a handle
+                variants = []
+                base = ga_scenario(p, ctx)
+                if base:
+                    for uv_req, verified in ((False, False), (False, True), (True, True)):
+                        v = json.loads(json.dumps(base))
+                        v["request"]["uv"] = uv_req
+                        v["user"]["outcome"] = {"ok": [True, verified]}
+                        v["store"]["held"][0]["user_handle"] = True
+                        variants.append(v)
+                F.append(Finding("C11", "ga.user-handle-source", "the response's user is not derived from the credential's stored user handle alone (%s)" % tstr(src)[:80],
+                                 variants or None, lambda o: isinstance(o["result"], dict) and "ok" in o["result"] and o["result"]["ok"]["user"] is False, p))
     return F, stats
 
 
@@ -727,12 +761,39 @@ def check_forwarding(fn_paths, method, ctx):
     done = [p for p in fn_paths if p.end and p.end[0] == "return" and p.end[1][0] == "ctor" and p.end[1][1] == "Ready"]
     if not done:
         raise Shape("no completing path in Ctap2Api::%s" % method)
+
+    def pair(req):
+        base = {"request": req, "store": {"find": {"ok": 1}, "held": [{"counter": 0, "user_handle": True}]},
+                "user": {"verification": True, "outcome": {"ok": [True, True]}}}
+        a = dict(base, op="trait_" + method)
+        b = dict(base, op=method)
+        return {"pair": [a, b]}
+
+    def differ(outs):
+        return outs[0]["result"] != outs[1]["result"] or [c["call"] for c in outs[0]["log"]] != [c["call"] for c in outs[1]["log"]]
+    probes = [{"up": False, "pin_auth": True}, {"up": True, "pin_auth": True, "unsupported_alg": True}, {"up": True, "allow_list_unknown": True},
+              {"up": True, "uv": True}, {"up": True, "rk": True}]
     for p in done:
         ev = [(i, e) for i, e in env_calls(p)]
         fwd = [(i, e) for i, e in ev if e["callee"].endswith("::" + method)]
+        if len(fwd) == 0:
+            if method == "get_info":
+                raise Shape("Ctap2Api::get_info completes without calling the direct method")
+            for k, req in enumerate(probes):
+                F.append(Finding("C18", "trait.%s.answers-without-forwarding.%d" % (method, k),
+                                 "<Authenticator as Ctap2Api>::%s has a path that answers without calling the direct method (%s)" %
+                                 (method, "; ".join(kk[:50] for kk, op, v in p.conds)[:120]), pair(req), differ, p))
+            continue
         if len(fwd) != 1:
             raise Shape("Ctap2Api::%s: %d forwarding calls" % (method, len(fwd)))
         i, e = fwd[0]
+        if method != "get_info" and len(e["args"]) > 1:
+            req = chase(e["args"][1])
+            unchanged = req[0] in ("in", "proj") or (req[0] == "with" and False)
+            if not unchanged:
+                for k, rq in enumerate(probes):
+                    F.append(Finding("C18", "trait.%s.request-rewritten.%d" % (method, k),
+                                     "the trait method passes a rebuilt request to the direct method (%s)" % tstr(req)[:80], pair(rq), differ, p))
         full = e["full"]
         if " as Ctap2Api>::" in full or full.strip().startswith("<") and "Ctap2Api" in full:
             sc = {"op": "trait_" + method, "request": {"up": True}, "store": {"find": {"err": 0x2E}}, "user": {"outcome": {"ok": [True, True]}}}
@@ -912,6 +973,15 @@ def check_store_contract(fns, ctx, solver, store_kind):
                 sc = {"op": "store_find", "store_kind": store_kind, "stored_rp": "a.example", "query_rp": "a.example", "ids": None}
                 F.append(Finding("C05", "store.%s.absent-list-finds-nothing" % store_kind,
                                  "the lookup iterates the id list only: with an absent list the credentials of the RP are never found", sc,
+                                 lambda o: isinstance(o["result"], dict) and "err" in o["result"], p))
+        if case in ("some", "both") and store_kind == "option":
+            names = [e["callee"] for e in p.events if e["kind"] == "call"]
+            iterated = any(n.endswith(("Iterator::find_map", "Iterator::filter_map", "Iterator::find", "Iterator::any", "Iterator::filter", "Iterator::position", "Iterator::for_each")) for n in names)
+            sampled = [n for n in names if n.endswith(("::first", "::last", "::get", "::split_first", "::split_last"))]
+            if not iterated or sampled:
+                sc = {"op": "store_find", "store_kind": store_kind, "stored_rp": "a.example", "query_rp": "a.example", "ids": "other_then_match"}
+                F.append(Finding("C05", "store.%s.id-list-not-iterated" % store_kind,
+                                 "the lookup does not go through every entry of the id list (%s)" % (sampled or "no iterator adaptor over the list"), sc,
                                  lambda o: isinstance(o["result"], dict) and "err" in o["result"], p))
         for cs in (("some", "none") if case == "both" else (case,)):
             seen[cs] = True
